@@ -10,7 +10,7 @@ from harness import core, anngen, project, obo
 from harness.project import call, fix
 
 RES24 = "ACDEFGHIKLMNPQRSTVWYUOXJ"
-ADDUCT_IONS = ["H+", "Na+", "K+", "Li+", "Mg2+", "Ca2+", "Cl-", "I-", "e-"]
+ADDUCT_IONS = ["H+", "Na+", "K+", "Li+", "Mg2+", "Ca2+", "Cl-", "I-", "e-", "D+", "T+"]     # isotope symbols are ions too
 NOARG = -99
 
 
@@ -42,6 +42,9 @@ def massy_annotation(rnd, maxlen=40, labels=False, intervals=True):
 def mass_event(pp, tid, A, call_, zarg, adducts_arg, mono, iso, loss, prec, via):
     text = anngen.render(A)
     seq = text if via == "str" else anngen.build(pp, A)
+    if via == "str":
+        project.maybe_poison(pp, text, tid)
+    project.poison_values(pp, A, tid)
     kw = dict(ion_type="p", monoisotopic=mono, isotope=iso, loss=loss, precision=None if prec < 0 else prec)
     if zarg != NOARG:
         kw["charge"] = zarg
